@@ -27,6 +27,16 @@ CLAIMS = {
              "Spurious flags are measured, not required. Unverified: the code generator's use of the helpers beyond the L3 catalogue "
              "(ConsolidateOverflowCheck); unary minus and / are decided by the L3 units (see known findings).",
         ref="4 C04"),
+    "C15": dict(
+        text="Proof on the abstract object model (seq_len / item) that __Pyx_GetItemInt_List_Fast and __Pyx_GetItemInt_Tuple_Fast - "
+             "taken from the generated module in the release (-DNDEBUG) configuration - return exactly the element at the index "
+             "wrapped once when -len <= i < len, hand every other checked index to CPython's generic item access with the ORIGINAL "
+             "index, for every (wraparound, boundscheck) flag combination, and never touch ob_item[] outside [0, len). Kernel: integer "
+             "indexing of exact lists and tuples.",
+        note="Trusted: dv C front end, dv/pyobj.py (element array model, PyList_GET_SIZE/PyTuple_GET_SIZE, generic access delegated to "
+             "CPython), z3. Unverified: str/bytes/bytearray/unicode indexing helpers, SetItemInt/DelItemInt, slicing (SliceObject), "
+             "helper selection in IndexNode.",
+        ref="4 C15"),
     "C16": dict(
         text="Proof for all Py_ssize_t arguments that __pyx_memoryview_slice_memviewslice (the one-dimension index/slice normaliser "
              "behind both a[i:j:k] on typed memoryviews and memoryview.__getitem__), taken from the C the working-tree compiler "
